@@ -29,6 +29,8 @@ def attempt(prop, comp, group, ob, rep):
     if exe is None:
         return {'reproduced': False, 'detail': 'replayer build failed: ' + err}
     cmds = []
+    if prop == 'C19' or 'C19' in ob.get('tags', []) or 'assignable' in desc:
+        cmds.append([exe, 'purity', cls, ty])
     if 'seam' in g:
         cmds.append([exe, 'seam', ty])
     cmds.append([exe, 'sweep', cls, ty, '7', '400'])
